@@ -116,7 +116,8 @@ def main(argv=None):
             wall_cap = args.budget
         is_known = name.startswith("known:")
         m = run_campaign(prop_id, tier, seed, name, n_runs, wall_cap, workers=args.workers,
-                         chunk=prop.chunk, start_index=args.start, stop_on_violation=not is_known)
+                         chunk=getattr(prop, "chunk_of", {}).get(name, prop.chunk), start_index=args.start,
+                         stop_on_violation=not is_known)
         campaigns[name] = m
         if is_known:
             print(f"campaign {name}: failing runs in the known-defect region: {m['n_violating']} of {m['runs']}")
